@@ -81,6 +81,10 @@ func c05Scenarios() []dbScenario {
 		{name: "S4-compaction-under-read-and-flush", mem: 50, thresh: 1, quickBound: 1, thoroughBound: 2,
 			setup:   []cop{{"put", "a", "1"}, {"put", "b", "1"}, {"rot", "", ""}, {"put", "a", "2"}, {"del", "b", ""}, {"rot", "", ""}},
 			threads: [][]cop{{{"compact", "", ""}}, {{"get", "a", ""}, {"get", "b", ""}}, {{"put", "b", bigVal}}}},
+		// a key that lives in the write memstore is overwritten (same length, shorter, longer) while it is being read
+		{name: "S6-overwrite-in-memstore-under-read", mem: 1 << 20, thresh: 10, quickBound: 2, thoroughBound: 3,
+			setup:   []cop{{"put", "a", "11"}},
+			threads: [][]cop{{{"put", "a", "22"}, {"put", "a", "3"}, {"put", "a", bigVal}}, {{"get", "a", ""}, {"get", "a", ""}}}},
 		{name: "S5-compaction-drops-tombstone-under-write", mem: 1 << 20, thresh: 1, quickBound: 2, thoroughBound: 3,
 			setup:   []cop{{"put", "a", "1"}, {"rot", "", ""}, {"del", "a", ""}, {"rot", "", ""}},
 			threads: [][]cop{{{"compact", "", ""}}, {{"put", "a", "5"}, {"get", "a", ""}}}},
@@ -123,7 +127,7 @@ func (c c05) Run(ctx *core.Ctx) error {
 			scns = append(scns, s)
 		}
 	}
-	ctx.Ev.Rule = "5 scenarios of 2-3 client goroutines (1-2 operations each on colliding keys) plus the real flusher goroutine and, in two scenarios, a goroutine running one compaction cycle; every interleaving with at most N preemptions is executed on the real SimpleDB under a cooperative scheduler injected by source rewriting (scheduling points: every lock, channel and atomic operation and every statement touching the memstore pair / table list); each execution's history of call/return steps and results (plus a final sequential read of all keys) must be linearizable against a map; deadlock, panic and any API error are violations. distinct = (scenario, observed history class); non-trivial = executions with at least one preemption"
+	ctx.Ev.Rule = "6 scenarios of 2-3 client goroutines (1-2 operations each on colliding keys) plus the real flusher goroutine and, in two scenarios, a goroutine running one compaction cycle; every interleaving with at most N preemptions is executed on the real SimpleDB under a cooperative scheduler injected by source rewriting (scheduling points: every lock, channel and atomic operation and every statement touching the memstore pair / table list); each execution's history of call/return steps and results (plus a final sequential read of all keys) must be linearizable against a map; deadlock, panic and any API error are violations. distinct = (scenario, observed history class); non-trivial = executions with at least one preemption"
 	ctx.Ev.Bounds["scenarios"] = len(scns)
 	ctx.Ev.Assume = []string{"lock operations are atomic at their scheduling point (a parked thread has not called Lock yet), which is exact for the non-reentrant locking in simpledb",
 		"the compaction ticker goroutine is not part of the scenarios; one cycle runs in a harness goroutine through the tag-guarded helper"}
